@@ -22,6 +22,7 @@ import (
 	"fmt"
 	"net/http/httptest"
 	"os"
+	"os/exec"
 	"runtime/pprof"
 	"sort"
 	"strings"
@@ -546,10 +547,93 @@ func text(version string, b *baseEvent, subs []sub, withHash bool) []byte {
 	return signed
 }
 
-func main() { harness.Main("C18", "model_checking", run) }
+func main() {
+	if v := os.Getenv("VERIF_C18_DEEP"); v != "" {
+		deepChild(v)
+		return
+	}
+	harness.Main("C18", "model_checking", run)
+}
+
+// deepChild runs one deep-nesting probe in a process of its own: running out of stack is a fatal error, not a panic, and
+// cannot be recovered, so the parent learns about it from the exit status.
+func deepChild(spec string) {
+	var kind string
+	var depth int
+	fmt.Sscanf(spec, "%d", &depth)
+	kind = spec[strings.IndexByte(spec, ':')+1:]
+	var doc string
+	switch kind {
+	case "obj":
+		doc = strings.Repeat(`{"":`, depth) + "0" + strings.Repeat("}", depth)
+	case "arr":
+		doc = strings.Repeat("[", depth) + "0" + strings.Repeat("]", depth)
+	case "mixed":
+		doc = strings.Repeat(`{"a":[`, depth/2) + "0" + strings.Repeat("]}", depth/2)
+	}
+	defer func() {
+		if r := recover(); r != nil {
+			fmt.Println("PANIC:", fmt.Sprint(r))
+			os.Exit(3)
+		}
+	}()
+	_, _ = gmsl.CanonicalJSON([]byte(doc))
+	_, _ = gmsl.EnforcedCanonicalJSON([]byte(doc), "10")
+	signed := `{"signatures":{"a.org":{"ed25519:1":"` + strings.Repeat("A", 86) + `"}},"x":` + doc + `}`
+	_ = gmsl.VerifyJSON("a.org", "ed25519:1", make([]byte, 32), []byte(signed))
+	_, _ = gmsl.ListKeyIDs("a.org", []byte(signed))
+	_, _ = gmsl.SignJSON("b.org", "ed25519:1", fedgen.Keys["b.org"].Priv, []byte(signed))
+	for _, v := range []string{"1", "10", "12"} {
+		ver := gmsl.MustGetRoomVersion(gmsl.RoomVersion(v))
+		ev := `{"type":"m.room.message","sender":"@a:a.org","room_id":"!r:a.org","origin_server_ts":1,"depth":1,"prev_events":[],"auth_events":[],"hashes":{"sha256":"x"},"content":` + doc + `}`
+		_, _ = ver.NewEventFromUntrustedJSON([]byte(ev))
+		_, _ = ver.RedactEventJSON([]byte(ev))
+	}
+	fmt.Println("OK")
+}
+
+// deepProbes: documents nested far deeper than any enumerated one, one child process per (depth, kind).
+func deepProbes(r *harness.Run) {
+	self, err := os.Executable()
+	if err != nil {
+		return
+	}
+	depths := r.PickInts([]int{5000, 9999, 10001, 20000, 40000, 100000}, []int{1000, 5000, 9999, 10000, 10001, 20000, 40000, 100000, 400000, 1000000})
+	type probe struct {
+		d    int
+		kind string
+	}
+	var ps []probe
+	for _, d := range depths {
+		for _, k := range []string{"obj", "arr", "mixed"} {
+			ps = append(ps, probe{d, k})
+		}
+	}
+	r.Parallel(len(ps), func(i int) {
+		p := ps[i]
+		r.Eval()
+		ctx, cancel := context.WithTimeout(context.Background(), 120*time.Second)
+		defer cancel()
+		cmd := exec.CommandContext(ctx, self)
+		cmd.Env = append(os.Environ(), fmt.Sprintf("VERIF_C18_DEEP=%d:%s", p.d, p.kind))
+		out, err := cmd.CombinedOutput()
+		if ctx.Err() != nil {
+			r.Count("deep_probe_timed_out", 1) // slow is not a crash
+			return
+		}
+		if err != nil || !strings.Contains(string(out), "OK") {
+			first := strings.SplitN(strings.TrimSpace(string(out)), "\n", 4)
+			if len(first) > 3 {
+				first = first[:3]
+			}
+			r.Violation(fmt.Sprintf("panic-deep:%s:%d", p.kind, p.d), fmt.Sprintf("a document of %d nested %s levels takes the process down (%v): %s", p.d, p.kind, err, strings.Join(first, " | ")), "none", nil)
+		}
+	})
+	r.Count("deep_nesting_probes", int64(len(ps)))
+}
 
 func run(r *harness.Run) {
-	r.Rule("(i) for every registered room version and each of 15 valid base events (create, six member shapes, mxid-mapped member, power levels, join rules, third-party invite, aliases, redaction, history visibility, message): every substitution of one member (16 top-level members and every content member the auth / redaction code reads) by every value of its menu (every JSON kind, integers at +-2^53, 2^63, 2^64, fractions, malformed and oversized identifiers, invalid UTF-8), with and without a matching content hash, every pair of substitutions over reduced menus, and every top-level / content member sent twice (the extra copy before or after the genuine one, reduced menus); each text through NewEventFromUntrustedJSON / TrustedJSON / TrustedJSONWithEventID / EventJSONs.UntrustedEvents, and every accepted event through every PDU accessor, Sign, SetUnsigned, Redact, CheckFields, content parsers, VerifyEventSignatures, StateNeededForAuth, Allowed (as the checked event and as an auth event of 15 valid probes, three sender-resolution behaviours), all three resolvers, topological orderings, VerifyEventAuthChain, CheckStateResponse / CheckSendJoinResponse, HandleSendJoin, HandleInvite, and the fclient response / request unmarshallers. (ii) all byte strings up to a length over token alphabets and all single-byte corruptions of valid texts through CanonicalJSON, EnforcedCanonicalJSON, CompactJSON, SortJSON, VerifyJSON, ListKeyIDs, ServerKeys / CheckKeys, ParseAuthorization, identifier parsers and the event parsers. Oracle: no panic.")
+	r.Rule("(i) for every registered room version and each of 15 valid base events (create, six member shapes, mxid-mapped member, power levels, join rules, third-party invite, aliases, redaction, history visibility, message): every substitution of one member (16 top-level members and every content member the auth / redaction code reads) by every value of its menu (every JSON kind, integers at +-2^53, 2^63, 2^64, fractions, malformed and oversized identifiers, invalid UTF-8), with and without a matching content hash, every pair of substitutions over reduced menus, and every top-level / content member sent twice (the extra copy before or after the genuine one, reduced menus); each text through NewEventFromUntrustedJSON / TrustedJSON / TrustedJSONWithEventID / EventJSONs.UntrustedEvents, and every accepted event through every PDU accessor, Sign, SetUnsigned, Redact, CheckFields, content parsers, VerifyEventSignatures, StateNeededForAuth, Allowed (as the checked event and as an auth event of 15 valid probes, three sender-resolution behaviours), all three resolvers, topological orderings, VerifyEventAuthChain, CheckStateResponse / CheckSendJoinResponse, HandleSendJoin, HandleInvite, and the fclient response / request unmarshallers. (ii) all byte strings up to a length over token alphabets and all single-byte corruptions of valid texts through CanonicalJSON, EnforcedCanonicalJSON, CompactJSON, SortJSON, VerifyJSON, ListKeyIDs, ServerKeys / CheckKeys, ParseAuthorization, identifier parsers and the event parsers; (iii) documents nested 5 000 ... 100 000 (thorough 1 000 000) levels deep (objects, arrays, mixed) through the canonicalisers, VerifyJSON, SignJSON, ListKeyIDs, the untrusted parser and RedactEventJSON, each in a child process (running out of stack is fatal, not a panic). Oracle: no panic, no fatal error.")
 	r.Assume("panics documented for caller errors (nil querier / verifier / context, fewer than two state sets) are excluded by construction", "goroutines started by the library are not observed by recover (none are started on these paths)")
 	r.OnReplay("event", func(raw json.RawMessage) error {
 		var in caseInput
@@ -706,5 +790,6 @@ func run(r *harness.Run) {
 	if os.Getenv("C18_SKIP_BYTES") == "" {
 		runBytes(r, trace)
 	}
+	deepProbes(r)
 	_ = evgen.B64
 }
